@@ -764,7 +764,7 @@ Section Thm.
     - intros a p IH M D. apply assemble_good; auto.
   Qed.
 
-  (* in_fragment: the schema uses none of the deviating constructs (Encode.v, DEV_*) *)
+  (* in_fragment: the schema uses none of the deviating constructs (the DEV classes of Encode.v) *)
   Definition in_fragment (s : schema) : Prop := r_dev (enc re s mall) = [].
 
   Theorem encode_correct : forall s, in_fragment s -> forall j, encode re s j = valid re s j.
